@@ -61,6 +61,9 @@ CleanHost(T, hp) ==
     /\ \A b \in Binds(T) : IsPrefix(hp, b.src) => \A m \in T : ~(IsPrefix(b.dst, m.dst) /\ m.dst # b.dst)
 WritableCtr(T, cp) == IF Over(T, cp) = {} THEN TRUE ELSE ~MaxDst(Over(T, cp)).ro
 Inside(a, b) == a.st = b.st /\ IsPrefix(a.p, b.p)        \* location b lies in the tree at a
+\* a read-only copy may have made the target an alias of the source: later copies keep out of both trees
+Frozen(l) == \E t \in taint : t.view = "frozen" /\ t.st = l.st /\ (IsPrefix(t.p, l.p) \/ IsPrefix(l.p, t.p))
+Freeze(ro, sl, tl) == IF ro THEN {[view |-> "frozen", st |-> sl.st, p |-> sl.p], [view |-> "frozen", st |-> tl.st, p |-> tl.p]} ELSE {}
 Tainted(view, l) == \E t \in taint : t.view = view /\ t.st = l.st /\ (IsPrefix(t.p, l.p) \/ IsPrefix(l.p, t.p))
 
 (* ----------------------------------------------------------------------------------------------- *)
@@ -162,12 +165,13 @@ CopyL2R(src, dst, ro) ==
     /\ \E T \in {Tab} : \E sl \in {HostLoc(src)} :
        \E tgt \in {IF IsDir(fs, Resolve(T, dst)) THEN dst \o <<Base(src)>> ELSE dst} :
        \E tl \in {Resolve(T, tgt)} :
-          /\ ~Tainted("host", sl) /\ ~Inside(sl, tl)
+          /\ ~Tainted("host", sl) /\ ~Inside(sl, tl) /\ ~Frozen(tl)
           /\ ~Exists(fs, tl) /\ IsDir(fs, Resolve(T, Parent(tgt)))
           /\ CleanHost(T, src) /\ CleanCtr(T, tgt) /\ WritableCtr(T, tgt)
           /\ \E g \in {Put(fs, tl, Tree(fs, sl))} : \E d \in {DecL2R(T, cuser, src, tgt, ro)} :
              /\ fs' = g
-             /\ taint' = IF ro /\ tl.st = HostStore THEN taint \cup {[view |-> "host", st |-> tl.st, p |-> tl.p]} ELSE taint
+             /\ taint' = (IF ro /\ tl.st = HostStore THEN taint \cup {[view |-> "host", st |-> tl.st, p |-> tl.p]} ELSE taint)
+                          \cup Freeze(ro, sl, tl)
              /\ last' = [op |-> "l2r", src |-> src, dst |-> dst, ro |-> ro, tgt |-> tgt, dec |-> d,
                          hadd |-> IF ro THEN {} ELSE HostAdd(fs, g), cadd |-> CtrAdd(T, fs, g),
                          hskip |-> IF ro /\ tl.st = HostStore THEN {tl.p} ELSE {}, cskip |-> {}]
@@ -177,14 +181,15 @@ CopyL2R(src, dst, ro) ==
 CopyR2L(src, dst, ro) ==
     /\ Ready
     /\ \E T \in {Tab} : \E sl \in {Resolve(T, src)} : \E tl \in {HostLoc(dst)} :
-          /\ Exists(fs, sl) /\ ~Tainted("ctr", sl) /\ ~Inside(sl, tl)
+          /\ Exists(fs, sl) /\ ~Tainted("ctr", sl) /\ ~Inside(sl, tl) /\ ~Frozen(tl)
           /\ ~Exists(fs, tl) /\ IsDir(fs, HostLoc(Parent(dst)))
           /\ CleanCtr(T, src) /\ CleanHost(T, dst)
           /\ \E seen \in {CtrNames(T, HostStore, dst)} :
              /\ \A c \in seen : WritableCtr(T, c)
              /\ \E g \in {Put(fs, tl, Tree(fs, sl))} : \E d \in {DecR2L(T, cuser, src, dst, ro)} :
                 /\ fs' = g
-                /\ taint' = IF ro /\ seen # {} THEN taint \cup {[view |-> "ctr", st |-> tl.st, p |-> tl.p]} ELSE taint
+                /\ taint' = (IF ro /\ seen # {} THEN taint \cup {[view |-> "ctr", st |-> tl.st, p |-> tl.p]} ELSE taint)
+                             \cup Freeze(ro, sl, tl)
                 /\ last' = [op |-> "r2l", src |-> src, dst |-> dst, ro |-> ro, tgt |-> dst, dec |-> d,
                             hadd |-> HostAdd(fs, g), cadd |-> IF ro THEN {} ELSE CtrAdd(T, fs, g),
                             hskip |-> {}, cskip |-> IF ro THEN seen ELSE {}]
@@ -198,12 +203,13 @@ CopyR2R(src, dst, ro) ==
        /\ Exists(fs, sl)
        /\ \E tgt \in {IF IsDir(fs, Resolve(T, dst)) THEN dst \o <<Base(src)>> ELSE dst} :
           \E tl \in {Resolve(T, tgt)} :
-          /\ ~IsPrefix(src, tgt) /\ ~Inside(sl, tl) /\ ~Tainted("ctr", sl)
+          /\ ~IsPrefix(src, tgt) /\ ~Inside(sl, tl) /\ ~Tainted("ctr", sl) /\ ~Frozen(tl)
           /\ ~Exists(fs, tl) /\ IsDir(fs, Resolve(T, Parent(tgt)))
           /\ CleanCtr(T, src) /\ CleanCtr(T, tgt) /\ WritableCtr(T, tgt)
           /\ \E g \in {Put(fs, tl, Tree(fs, sl))} : \E d \in {DecR2R(T, cuser, src, dst, tgt, ro)} :
              /\ fs' = g
-             /\ taint' = IF ro /\ tl.st = HostStore THEN taint \cup {[view |-> "host", st |-> tl.st, p |-> tl.p]} ELSE taint
+             /\ taint' = (IF ro /\ tl.st = HostStore THEN taint \cup {[view |-> "host", st |-> tl.st, p |-> tl.p]} ELSE taint)
+                          \cup Freeze(ro, sl, tl)
              /\ last' = [op |-> "r2r", src |-> src, dst |-> dst, ro |-> ro, tgt |-> tgt, dec |-> d,
                          hadd |-> IF ro THEN {} ELSE HostAdd(fs, g), cadd |-> CtrAdd(T, fs, g),
                          hskip |-> IF ro /\ tl.st = HostStore THEN {tl.p} ELSE {}, cskip |-> {}]
